@@ -5,7 +5,8 @@ flow reference whose name is `None`), ids are `given s` (spelled in the input) o
 -/
 import Rpft.Drv.Json
 import Rpft.Uuid
-namespace Rpft.Drv
+namespace Rpft.Drv.UuidD
+open Rpft.Drv
 open Lean Rpft Rpft.Uuid
 
 inductive UId
@@ -175,4 +176,4 @@ def handleUuid (op : String) (j : Json) : Except String Json := do
       pure (Json.arr ((occsOf c).map occJ).toArray)
   | _ => throw s!"unknown op {op}"
 
-end Rpft.Drv
+end Rpft.Drv.UuidD
